@@ -12,6 +12,10 @@ def body(ctx):
     n = 300 if ctx.tier == "quick" else 5000
     outdir, meta = ctx.harness("c14", n)
     ctx.correspond(outdir, nontrivial_tag=lambda t: "diagnostics" in t, shrink_group="c14")
+    # the same under the Roblox base library (the four roblox_* lints are on): corpus + generated programs with a prologue of
+    # Color3 / UDim2 constructor calls
+    outdir, meta = ctx.harness("c14r", n // 3)
+    ctx.correspond(outdir, nontrivial_tag=lambda t: "diagnostics" in t, shrink_group="c14r")
     ctx.notes.append(f"renamed names: {ctx.stats.get('renamed_names', 0)}, to names longer than 32 bytes: {ctx.stats.get('rename_to_long_name', 0)}, "
                      f"library-root spellings that were script-bound: {ctx.stats.get('renamed_name_is_library_root_but_script_bound', 0)}")
 
